@@ -1,4 +1,5 @@
 import ChythonModel.Model.Stereo
+import ChythonModel.Model.StereoParse
 import ChythonModel.Spec.Parity
 import Mathlib.Data.List.Perm.Basic
 /-!
@@ -177,5 +178,48 @@ theorem index?_inj : ∀ (l : List Nat) (x y i : Nat), index? l x = some i → i
       have : k = j := by omega
       subst this
       exact ih x y k hj hk
+
+/-! ### dict / dict-of-dict assignment (parser `stereo_bonds`) -/
+
+section
+open ChythonModel.Model.StereoParse
+
+theorem aget_aset {κ ν} [DecidableEq κ] (l : List (κ × ν)) (a : κ) (v : ν) (c : κ) :
+    aget (aset l a v) c = if c = a then some v else aget l c := by
+  induction l with
+  | nil => simp [aset, aget]
+  | cons p tl ih =>
+    obtain ⟨k, w⟩ := p
+    by_cases hk : k = a
+    · subst hk
+      by_cases hc : c = k <;> simp [aset, aget, hc]
+    · by_cases hc : c = k
+      · subst hc
+        have : ¬ c = a := hk
+        simp [aset, aget, hk, this]
+      · simp [aset, aget, hk, hc, ih]
+
+theorem sbGet_sbSet (sb : SB) (a b : Nat) (v : Bool) (c d : Nat) :
+    sbGet (sbSet sb a b v) c d = if c = a ∧ d = b then some v else sbGet sb c d := by
+  unfold sbGet sbSet
+  rw [aget_aset]
+  by_cases hc : c = a
+  · subst hc
+    simp only [if_true, Option.bind_some, aget_aset, true_and]
+    by_cases hd : d = b
+    · simp [hd]
+    · simp only [hd, if_false]
+      cases aget sb c <;> simp [aget]
+  · simp [hc]
+
+/-- writing both directions of one bond: `sb[x][y] = v; sb[y][x] = w` -/
+theorem sbGet_pair (sb : SB) (x y : Nat) (v w : Bool) (h : x ≠ y) :
+    sbGet (sbSet (sbSet sb x y v) y x w) x y = some v ∧ sbGet (sbSet (sbSet sb x y v) y x w) y x = some w := by
+  have h' : y ≠ x := Ne.symm h
+  constructor
+  · rw [sbGet_sbSet, sbGet_sbSet]; simp [h, h']
+  · rw [sbGet_sbSet]; simp
+
+end
 
 end ChythonModel.Proofs.C12
